@@ -132,7 +132,7 @@ class Cw(Engine):
     keep_prefix = 1
     timeout = 1500
 
-    def __init__(self, nbase=260, monitor=True, mem=True, c11=False):
+    def __init__(self, nbase=220, monitor=True, mem=True, c11=False):
         self.nbase, self.monitor, self.mem, self.c11 = nbase, monitor, mem, c11
 
     # -- generators -------------------------------------------------------
@@ -292,6 +292,7 @@ class Cw(Engine):
     def oracle(self, case, impl):
         sizes = []
         anybad = False
+        seen_fatal = False
         for op, o in zip(case.ops, impl):
             if 'VIOLATED' in o:
                 return o
@@ -309,8 +310,12 @@ class Cw(Engine):
             st = m.group(2)
             if m.group(5) == '1':
                 anybad = True
-                if st not in ('fatal', 'failed'):
+                # archive_write_free on a handle that is already FATAL closes the filters but deliberately drops
+                # the status of that close; the failure that made the handle FATAL was reported by its own call
+                if st not in ('fatal', 'failed') and not (m.group(1) == 'free' and seen_fatal):
                     return f'a write callback invocation failed during "{op.split()[0]}" but the call returned {st}'
+            if st == 'fatal':
+                seen_fatal = True
             if m.group(4) != '-':
                 for part in m.group(4).split(','):
                     s, c = part.split('*')
